@@ -49,7 +49,7 @@ for _ct in ("spherical", "cartesian"):
             # neighbours: query of a tree over the SOURCE grid's elements of the kind the data live on, rebuilt for this call
             _q = f"meth('query', summary('{_G}get_ball_tree', source_grid, '{_m}', {_ta}), {_dest}, k=k)"
             _ens.append(f"implies({_c}, same(item(result, 1), item({_q}, 0)))")
-        contract("uxarray.remap.utils._remap_grid_parse", props=["C12"], variant=f"{_ct},{_rt}",
+        contract("uxarray.remap.utils._remap_grid_parse", props=["C12", "C10"], variant=f"{_ct},{_rt}",
                  params={"source_data": "opaque", "source_grid": "obj('Grid')", "destination_grid": "obj('Grid')", "coord_type": repr(_ct),
                          "remap_to": repr(_rt), "k": "opaque", "query": "True"},
                  returns="opaque", ensures=_ens,
